@@ -84,7 +84,7 @@ def short(node, limit=60):
     except Exception:  # pragma: no cover
         s = type(node).__name__
     s = " ".join(s.split())
-    return s if len(s) <= limit else s[: limit - 1] + "…"
+    return s if len(s) <= limit else s[: limit - 1] + ".."
 
 
 def value_kind(v):
@@ -451,11 +451,11 @@ class ModuleScan:
                         flat.append(tg)
                 for tg in flat:
                     if isinstance(tg, ast.Subscript):
-                        note(tg.value, f"{short(tg.value, 40)}[…] {'op=' if isinstance(node, ast.AugAssign) else '='}")
+                        note(tg.value, f"{short(tg.value, 40)}[..] {'op=' if isinstance(node, ast.AugAssign) else '='}")
                     elif isinstance(tg, ast.Attribute):
                         note(tg.value, f"{short(tg, 40)} {'op=' if isinstance(node, ast.AugAssign) else '='}")
                     elif isinstance(tg, ast.Name) and isinstance(node, ast.AugAssign):
-                        # `x += …` on a list / bitarray / bytearray parameter is in place
+                        # `x += ..` on a list / bitarray / bytearray parameter is in place
                         t = taint.get(tg.id)
                         if t and t[0] == PARAM and t[1] in scalar:
                             t = None
